@@ -49,6 +49,16 @@ claim("C12", "5/C12", "flat and nested renderings of the same input loaded and c
 claim("C18", "5/C18", "TLA+ converter-path semantics (HasPath, ExpectedP) evaluated by TLC against instances constructed from the samples",
       "Generated attrs/dataclass classes are instantiated from each sample; TLC computes from the inferred field type which leaves must be converted (single pseudo-typed leaf under Optional/List/Dict) and compares the instance's projected values with the expected ones (converted via the logged parse table, None kept, others untouched).", MOD_NOTE)
 
+CLI_NOTE = ("Trusted: TLC 1.8.0; harness/record.py (run-time wrappers on file loaders, validate, set_args, generate, generate_code, open, write, print; "
+            "guard J2M_VERIF) and harness/drive_cli.py (materialisation of plans as files + argv, the option table Opts(argv), library-side rendering); "
+            "-m arguments are loaded before -l arguments (modelled as the code does it and stated in DESIGN.md).")
+claim("C16", "5/C16", "TLA+ state machine of the CLI process (Cli.tla) model-checked with TLC (Assembled); TLC-enumerated plans materialised and run through the real main(); recorded event traces validated against Cli.tla by TLC",
+      "Every fault-free plan (splits of the samples over files, lookups, repeated -m, -l, same file with two lookups) is run for real; TLC checks that each generate() call received exactly Assemble(plan) and that stdout / the -o file (after the header) equal the library pipeline's text for the same samples and mapped options, in-process and as an OS subprocess.", CLI_NOTE)
+claim("C17", "5/C17", "TLA+ state machine of the CLI process with an explicit fault choice, model-checked with TLC (Atomic, Reports, Complete, OnlyWriteAfterRender, termination); every plan executed for real and its recorded trace validated against the state machine by TLC",
+      "All fault kinds x position x output situations are enumerated by TLC; each is materialised (missing/malformed files, wrong lookups, non-object samples, non-string keys, bad policy, bad framework/generator combination, raising generator, unwritable target) and run through the real main() with recording wrappers and as a subprocess; TLC checks status, no code printed, output untouched, and that the output file is opened only after rendering (caught even when no fault hits the window).", CLI_NOTE)
+claim("C19", "5/C19", "TLA+ lexer of raw triple-quoted strings + the code's escaping (Header.tla) model-checked for every short command text; observed headers lexed by TLC, ast as ground truth; preamble placement clauses",
+      "TLC proves that the escaped command text keeps the header literal intact for every text of <=6 characters over {quote, backslash, newline, ASCII, non-ASCII}; each enumerated text is put on a real command line and TLC lexes the header that was really emitted while ast.parse gives the ground truth; preambles (docstrings, triple quotes, backslashes, blank) are checked for once / after imports / before classes / blank no-op.", CLI_NOTE)
+
 checks = []
 for pid, (ref, tech, text, note) in sorted(CLAIMS.items()):
     checks.append({
